@@ -85,7 +85,13 @@ func (pConn *PFCPConn) handleIncomingResponse(msg message.Message) {
 	req, ok := pConn.pendingReqs.Load(msg.Sequence())
 
 	if ok {
-		req.(*Request).reply <- msg
+		// non-blocking: the waiter may already hold a response (duplicate) or be gone
+		select {
+		case req.(*Request).reply <- msg:
+		default:
+			logger.PfcpLog.Warnln("dropping duplicate response with sequence number", msg.Sequence())
+		}
+
 		pConn.pendingReqs.Delete(msg.Sequence())
 	}
 }
